@@ -742,10 +742,36 @@ def check_property(pid, tier, seed):
         # (DESIGN.md §6): only a failing input found by the native search and replayed on the real crate is an alarm.
         import vsearch
         cex = None
+        kfail = []
+        try:
+            # the Kani contract harnesses of the cone do not depend on the Verus contracts: a FAILED harness is a
+            # verifier counterexample on the compiled crate
+            cone = load_cones().get(pid, {})
+            kpats = cone.get("kani_quick", []) + (cone.get("kani_thorough", []) if tier == "thorough" else [])
+            if kpats:
+                import vkani
+                kres = vkani.run_harnesses(kpats, tier)
+                kfail = [{"kind": "kani", "harness": h, "failed_checks": r.get("failed_checks", [])[:5]} for h, r in kres.get("harnesses", {}).items() if r["status"] == "FAILED"]
+        except Exception as e3:
+            kfail = []
         try:
             cex = vsearch.find_counterexample(pid, [], seed, tier)
         except Exception as e2:  # the search itself is best effort here
             cex = {"reproduced": False, "error": str(e2)[:200]}
+        if kfail and not (cex and cex.get("reproduced")):
+            rdir = os.path.join(VERIF, "evidence", "replay")
+            os.makedirs(rdir, exist_ok=True)
+            rp = os.path.join(rdir, "%s.json" % pid)
+            with open(rp, "w") as fh:
+                json.dump({"property": pid, "violations": kfail + [{"kind": "structure", "message": str(e)[:600]}], "counterexample": cex, "repo_head": git_head()}, fh, indent=1)
+            ev = {"property_id": pid, "tier": tier, "seed": seed, "level": "other",
+                  "coverage": {"explanation": "Verus contracts could not be applied (%s); Kani contract harnesses of the cone FAILED: %s" % (str(e)[:300], ", ".join(k["harness"] for k in kfail)),
+                               "evaluations": 1, "distinct_nontrivial": 2}, "assumptions": ASSUMPTIONS, "wall_s": 0.0, "violations": len(kfail)}
+            write_evidence(pid, ev)
+            for k in kfail:
+                print("  failed: %s - %s" % (k["harness"], "; ".join(k["failed_checks"])[:200]))
+            print("VIOLATION property=%s replay=%s no-failing-input-found" % (pid, rp))
+            return EXIT_VIOLATION
         ev = {"property_id": pid, "tier": tier, "seed": seed, "level": "other",
               "coverage": {"explanation": "proof undecided (tool problem): %s; native differential search against the oracle: %s" % (str(e)[:400], json.dumps(cex)[:300]),
                            "evaluations": max(1, (cex or {}).get("evaluations", 1)), "distinct_nontrivial": max(2, (cex or {}).get("evaluations", 2))},
